@@ -539,18 +539,19 @@ err_write:
 	queue_reset();
 	freedata();
 
-/* first check, then read: if the error happens on the last line nothing will be read here */
-	while ((linein.len != 1) || (linein.s[0] != '.')) {
-		if (net_read(1))
-			break;
-	}
+/* first check, then read: if the error happens on the last line nothing will be read here.
+ * Eat all data until the transmission ends, even if there are more errors in it: the
+ * rest of the message must never be taken for commands. Connection errors end the
+ * program inside net_read(). */
+	while ((linein.len != 1) || (linein.s[0] != '.'))
+		(void) net_read(1);
 
 #ifdef DEBUG_IO
 	in_data = 0;
 #endif
 	if ((rc == ENOSPC) || (rc == EFBIG)) {
 		rc = EMSGSIZE;
-	} else if ((errno != ENOMEM) && (errno != EMSGSIZE) && (errno != E2BIG) && (errno != EINVAL)) {
+	} else if ((rc != ENOMEM) && (rc != EMSGSIZE) && (rc != E2BIG) && (rc != EINVAL)) {
 		if (netwrite("451 4.3.0 error writing mail to queue\r\n"))
 			return errno;
 	}
